@@ -14,3 +14,4 @@ import ServlinVerif.Props.C07
 import ServlinVerif.Props.C01
 import ServlinVerif.Props.C03
 import ServlinVerif.Props.C02
+import ServlinVerif.Props.C06
